@@ -469,3 +469,105 @@ pub fn edge_one(args: &[String]) -> i32 {
         "pre": proj_json(&pre), "post": proj_json(&post), "en": m, "err": err, "depth": pathj.len()})).unwrap();
     0
 }
+
+
+// ---------------------------------------------------------------------------------------
+/// forced emission with an explicit fuzzer-bytes entropy source
+fn force_data(g: &mut Generator, op: OpcodeKind, data: &[u8]) -> Result<Vec<u8>, String> {
+    tick(|| format!("forced emission of opcode 0x{:02x} with explicit entropy bytes", op.as_u8()));
+    let before = g.output.len();
+    let mut u = arbitrary::Unstructured::new(data);
+    let mut src = GenerationSource::Arbitrary(unsafe { &mut *(&mut u as *mut arbitrary::Unstructured) });
+    g.verif_emit(op, &mut src).map_err(|e| format!("{e}"))?;
+    if g.output.len() < before { return Err("output shrank".into()); }
+    Ok(g.output[before..].to_vec())
+}
+
+/// `pfv globals <spec.json> <out.ndjson>`: value sweep of the GLOBAL argument.  Every two-byte entropy
+/// value (hence every line of the embedded module table) is fed to a forced GLOBAL, followed by an
+/// empty argument tuple and REDUCE / NEWOBJ / OBJ; outcomes are grouped by the simulated state they
+/// reach.  For every DISTINCT outcome one witness is written as TraceEdges records: the constructing
+/// step itself, and every opcode the implementation enables after one more NONE on top.
+pub fn globals(args: &[String]) -> i32 {
+    #[derive(Deserialize)]
+    struct Spec { protocols: Vec<usize>, step: usize }
+    let spec: Spec = serde_json::from_str(&std::fs::read_to_string(&args[0]).expect("read")).expect("parse");
+    std::panic::set_hook(Box::new(|_| {}));
+    let order = all_ops_sorted();
+    let mut out = std::io::BufWriter::new(std::fs::File::create(&args[1]).expect("create"));
+    let mut summary = Vec::new();
+    for &p in &spec.protocols {
+        let cfg = Cfg { p, min: 0, max: 0, muts: vec![], mut_unsafe: false, rate: 0.1, rate_raw: false, rate_special: String::new(),
+                        unsafe_: false, ext: false, buf: false, bufsize: None, alt_builder: false };
+        let cfgj = json!({"P": p, "ext": 0, "buf": 0, "unsafe": 0, "min": 0, "max": 0});
+        let tuple: Vec<u8> = if p >= 1 { vec![0x29] } else { vec![0x28, 0x74] };
+        let builders: Vec<u8> = if p >= 2 { vec![0x52, 0x81] } else { vec![0x52] };
+        for &b in &builders {
+            let mut classes: HashMap<Proj, (usize, Vec<Value>, Proj, [u32; 3], Vec<u8>)> = HashMap::new();
+            let mut tried = 0usize;
+            let mut i = 0usize;
+            while i < 65536 {
+                let data = vec![(i >> 8) as u8, (i & 255) as u8, 0, 0, 0, 0, 0, 0];
+                let mut g = fresh(&cfg);
+                let mut pathj: Vec<Value> = Vec::new();
+                let mut ok = true;
+                match force_data(&mut g, OpcodeKind::Global, &data) {
+                    Ok(bytes) => pathj.push(json!([0x63, bytes, "0"])),
+                    Err(_) => ok = false,
+                }
+                for tb in &tuple {
+                    if !ok { break; }
+                    match op_by_byte(*tb).map(|o| force(&mut g, o, 1)) { Some(Ok(bytes)) => pathj.push(json!([tb, bytes, "1"])), _ => ok = false }
+                }
+                if ok {
+                    let pre = proj(&g);
+                    let en = enabled_mask(&g.verif_valid_opcodes(), &order);
+                    if let Some(Ok(bytes)) = op_by_byte(b).map(|o| force(&mut g, o, 1)) {
+                        tried += 1;
+                        let post = proj(&g);
+                        classes.entry(coarse(&post)).or_insert((i, pathj.clone(), pre, en, bytes));
+                    }
+                }
+                i += spec.step.max(1);
+            }
+            for (_cls, (i, pathj, pre, en, bytes)) in classes.iter() {
+                // re-build the witness and write its edges
+                let data = vec![(*i >> 8) as u8, (*i & 255) as u8, 0, 0, 0, 0, 0, 0];
+                let mut g = fresh(&cfg);
+                let _ = force_data(&mut g, OpcodeKind::Global, &data);
+                for tb in &tuple { let _ = op_by_byte(*tb).map(|o| force(&mut g, o, 1)); }
+                let _ = op_by_byte(b).map(|o| force(&mut g, o, 1));
+                let post = proj(&g);
+                writeln!(out, "{}", json!({"cfg": cfgj, "path": pathj, "op": b, "seed": "1", "bytes": bytes, "muts": [], "rate": 0.1,
+                    "pre": proj_json(pre), "post": proj_json(&post), "en": en, "err": "", "depth": pathj.len()})).unwrap();
+                let mut path2 = pathj.clone();
+                path2.push(json!([b, bytes, "1"]));
+                if let Ok(nb) = force(&mut g, OpcodeKind::None, 1) {
+                    path2.push(json!([0x4e, nb, "1"]));
+                    let pre2 = proj(&g);
+                    let enabled = g.verif_valid_opcodes();
+                    let en2 = enabled_mask(&enabled, &order);
+                    for op in enabled {
+                        let mut g2 = fresh(&cfg);
+                        let _ = force_data(&mut g2, OpcodeKind::Global, &data);
+                        for tb in &tuple { let _ = op_by_byte(*tb).map(|o| force(&mut g2, o, 1)); }
+                        let _ = op_by_byte(b).map(|o| force(&mut g2, o, 1));
+                        let _ = force(&mut g2, OpcodeKind::None, 1);
+                        let res = std::panic::catch_unwind(std::panic::AssertUnwindSafe(|| force(&mut g2, op, 1)));
+                        let (eb, post2, err) = match res {
+                            Ok(Ok(x)) => (x, proj(&g2), String::new()),
+                            Ok(Err(e)) => (Vec::new(), proj(&g2), e),
+                            Err(_) => (Vec::new(), pre2.clone(), "panic".to_string()),
+                        };
+                        writeln!(out, "{}", json!({"cfg": cfgj, "path": path2, "op": op.as_u8(), "seed": "1", "bytes": eb, "muts": [], "rate": 0.1,
+                            "pre": proj_json(&pre2), "post": proj_json(&post2), "en": en2, "err": err, "depth": path2.len()})).unwrap();
+                    }
+                }
+            }
+            summary.push(json!({"P": p, "builder": b, "values_tried": tried, "distinct_outcomes": classes.len()}));
+        }
+    }
+    out.flush().unwrap();
+    println!("{}", serde_json::to_string(&summary).unwrap());
+    0
+}
